@@ -42,22 +42,31 @@ def EXHAUSTIVE(tier):
             'every start depth and flag combination' % (2 if tier == 'quick' else 3))
 
 
+def per_level(tier):
+    kinds = LEVEL_KINDS if tier == 'thorough' else ['none', 'plain', 'gz', 'xz', 'both']
+    return [(k, i) for k in kinds for i in IGN_KINDS
+            if not (k == 'none' and i != 'none')]
+
+
 def units(tier, seed):
     u = []
     maxd = 2 if tier == 'quick' else 3
-    per = [(k, i) for k in LEVEL_KINDS for i in IGN_KINDS
-           if not (k == 'none' and i != 'none')]
+    per = per_level(tier)
     # level 0 is the scratch root (top), levels below are sub-directories
     for d in range(1, maxd + 1):
         combos = list(itertools.product(range(len(per)), repeat=d + 1))
         # chunk
         size = 400
         for off in range(0, len(combos), size):
-            u.append({'k': 'enum', 'd': d, 'off': off, 'n': size})
+            u.append({'k': 'enum', 'd': d, 'off': off, 'n': size, 'tier': tier})
+    # zero-byte Manifests and IGNOREs that only match when read from the level above
+    u.append({'k': 'enum2', 'd': 2})
+    if tier == 'thorough':
+        u.append({'k': 'enum2', 'd': 3})
     nrand = 40 if tier == 'quick' else 1500
     for i in range(nrand):
         u.append({'k': 'rand', 'i': i, 'n': 25})
-    for i in range(6 if tier == 'quick' else 80):
+    for i in range(12 if tier == 'quick' else 120):
         u.append({'k': 'xdev', 'i': i})
     return u
 
@@ -67,8 +76,13 @@ def setup_worker(ctx):
     contracts.install_find_top(ctx)
 
 
-def ignore_path(kind, names_below):
+def ignore_path(kind, names_below, parent_name=None):
     """IGNORE entry (relative to this level) for a start path names_below."""
+    if kind == 'outer-self':
+        # the start path as seen from the level ABOVE (does not match from here)
+        if parent_name is None or not names_below:
+            return None
+        return '/'.join([parent_name] + list(names_below))
     if kind == 'none' or not names_below:
         return None
     full = '/'.join(names_below)
@@ -100,10 +114,13 @@ def build_chain(root, spec):
             continue
         below = names[li:spec.get('ign_depth', len(names))]
         ents = [{'tag': 'DATA', 'path': 'x', 'size': 0, 'sums': {}}]
-        ip = ignore_path(ign, below)
+        ip = ignore_path(ign, below, names[li - 1] if li >= 1 else None)
         if ip:
             ents.append({'tag': 'IGNORE', 'path': ip})
         data = mtext.render(ents).encode('utf8')
+        if kind == 'empty':
+            data = b''
+            kind = 'plain'
         kinds = ['plain', 'gz'] if kind == 'both' else [kind]
         for k in kinds:
             fn = 'Manifest' + ('' if k == 'plain' else '.' + k)
@@ -163,8 +180,7 @@ def run_case(ctx, spec, klass):
 
 
 def run_enum(u, ctx):
-    per = [(k, i) for k in LEVEL_KINDS for i in IGN_KINDS
-           if not (k == 'none' and i != 'none')]
+    per = per_level(u.get('tier', 'thorough'))
     d = u['d']
     combos = itertools.islice(itertools.product(range(len(per)), repeat=d + 1),
                               u['off'], u['off'] + u['n'])
@@ -175,6 +191,17 @@ def run_enum(u, ctx):
             ctx.sample(spec, 'enum')
 
 
+def run_enum2(u, ctx):
+    per = [(k, i) for k in ('empty', 'plain', 'none')
+           for i in ('none', 'self', 'outer-self') if not (k != 'plain' and i != 'none')]
+    d = u['d']
+    for n, combo in enumerate(itertools.product(range(len(per)), repeat=d + 1)):
+        spec = {'levels': [list(per[c]) for c in combo], 'names': ['a', 'b', 'c'][:d]}
+        run_case(ctx, spec, 'enum2')
+        if n % 29 == 0:
+            ctx.sample(spec, 'enum2')
+
+
 def run_rand(u, ctx):
     for j in range(u['n']):
         rng = common.rng_for(ctx.seed, ID, 'rand', u['i'], j)
@@ -182,8 +209,9 @@ def run_rand(u, ctx):
         names = [rng.choice(NAMES + ['bar', '.x', 'x']) + str(k) for k in range(d)]
         levels = []
         for _ in range(d + 1):
-            k = rng.choice(LEVEL_KINDS + ['none', 'plain'])
-            i = 'none' if k == 'none' else rng.choice(IGN_KINDS + ['none'])
+            k = rng.choice(LEVEL_KINDS + ['none', 'plain', 'empty'])
+            i = 'none' if k in ('none', 'empty') else rng.choice(
+                IGN_KINDS + ['none', 'outer-self'])
             levels.append([k, i])
         spec = {'levels': levels, 'names': names,
                 'ign_depth': rng.randint(1, d)}
@@ -275,7 +303,8 @@ def xdev_child(argv):
 
 
 def run_unit(u, ctx):
-    {'enum': run_enum, 'rand': run_rand, 'xdev': run_xdev}[u['k']](u, ctx)
+    {'enum': run_enum, 'rand': run_rand, 'xdev': run_xdev,
+     'enum2': run_enum2}[u['k']](u, ctx)
 
 
 def replay(case, ctx):
